@@ -170,7 +170,16 @@ impl<'r> Gen<'r> {
         };
         match style {
             0 => {
-                self.emit("b'");
+                let p = *self.r.pick(&["b'", "b'", "B'", "rb'", "Rb'", "bR'"]);
+                let raw = p.len() > 2;
+                self.emit(p);
+                if raw {
+                    let b: String = body.chars().filter(|c| c.is_ascii() && *c != '\\').collect();
+                    self.emit(&b);
+                    self.emit("'");
+                    return;
+                }
+                self.emit("");
                 let b: String = body.chars().filter(|c| c.is_ascii()).collect();
                 self.emit(&b);
                 self.emit("'");
@@ -196,6 +205,26 @@ impl<'r> Gen<'r> {
             3 => {
                 self.emit("u'");
                 self.emit(&body);
+                self.emit("'");
+            }
+            4 if self.in_fstring == 0 => {
+                // a line continuation inside a single-quoted string: the literal spans two lines
+                self.constructs.push("string-line-continuation");
+                let q = *self.r.pick(&["'", "\""]);
+                self.emit(q);
+                self.emit(&body);
+                self.emit("\\");
+                self.eol();
+                let b2 = self.string_body();
+                self.emit(&b2);
+                self.emit(q);
+            }
+            5 => {
+                let p = *self.r.pick(&["R", "U", "u", "r"]);
+                self.emit(p);
+                self.emit("'");
+                let b: String = body.replace('\\', "");
+                self.emit(&b);
                 self.emit("'");
             }
             _ => {
@@ -592,6 +621,41 @@ impl<'r> Gen<'r> {
             self.comma();
         }
         self.close(")");
+        // method / call chains: a(b).c(d)[e](f) — later links start after earlier ones end
+        if depth <= self.max_depth && self.r.chance(1, 6) {
+            self.constructs.push("call-chain");
+            match self.r.below(3) {
+                0 => {
+                    self.gap(false);
+                    self.emit(".");
+                    let a = *self.r.pick::<&str>(ATTRS);
+                    self.emit(a);
+                    self.open("(");
+                    if self.r.chance(1, 2) {
+                        self.emit_ascii_name();
+                        self.emit("_k");
+                        self.gap(false);
+                        self.emit("=");
+                        self.gap(false);
+                        self.expr_operand(depth + 1);
+                        self.comma();
+                        self.emit("*");
+                        self.emit_name();
+                    }
+                    self.close(")");
+                }
+                1 => {
+                    self.open("(");
+                    self.expr_operand(depth + 1);
+                    self.close(")");
+                }
+                _ => {
+                    self.open("[");
+                    self.expr_operand(depth + 1);
+                    self.close("]");
+                }
+            }
+        }
     }
 
     fn dict(&mut self, depth: u32) {
@@ -782,6 +846,11 @@ impl<'r> Gen<'r> {
     }
 
     fn end_line(&mut self) {
+        if self.r.chance(1, 12) {
+            // trailing blanks before the line end
+            let pad = *self.r.pick(&[" ", "  ", "\t", "   \t "]);
+            self.emit(pad);
+        }
         if self.r.chance(self.p_comment, 200) {
             let c = if self.r.chance(self.p_unicode, 100) { "  # é😀" } else { "  # c" };
             self.emit(c);
@@ -802,10 +871,17 @@ impl<'r> Gen<'r> {
         let n = self.r.range(1, 3);
         for _ in 0..n {
             if self.r.chance(1, 10) {
-                // blank or comment-only line inside a block
-                if self.r.chance(1, 2) {
-                    self.ind(level + 1);
-                    self.emit("# note");
+                // blank, whitespace-only or comment-only line inside a block
+                match self.r.below(3) {
+                    0 => {
+                        self.ind(level + 1);
+                        self.emit("# note");
+                    }
+                    1 => {
+                        let pad = *self.r.pick(&["   ", "\t", " "]);
+                        self.emit(pad);
+                    }
+                    _ => {}
                 }
                 self.eol();
             }
@@ -1492,7 +1568,32 @@ impl<'r> Gen<'r> {
         }
     }
 
+    /// One very wide logical line (hundreds of columns), optionally with non-ASCII early on.
+    fn wide_stmt(&mut self) {
+        self.constructs.push("wide-line");
+        self.emit_name();
+        self.emit(" = [");
+        let n = self.r.range(40, 120);
+        for i in 0..n {
+            if i > 0 {
+                self.emit(", ");
+            }
+            if i == 1 && self.r.chance(1, 2) {
+                self.emit("'é→😀'");
+            } else if self.r.chance(1, 20) {
+                self.call(self.max_depth);
+            } else {
+                self.number();
+            }
+        }
+        self.emit("]");
+        self.end_line();
+    }
+
     pub fn module(&mut self, n_stmts: u64) {
+        if self.r.chance(1, 40) {
+            self.wide_stmt();
+        }
         for _ in 0..n_stmts {
             if self.r.chance(1, 12) {
                 if self.r.chance(1, 2) {
